@@ -29,6 +29,7 @@ def run(prop: str, tier: str, repo: str) -> int:
         ctx = Ctx(repo)
         report.analysed.update(ctx.base_stats())
         mod = importlib.import_module(f"sa.rules.{prop.lower()}")
+        ctx._rule_stack.append(prop.lower())  # pylint: disable=protected-access
         mod.run(ctx, report)
         if tier == "thorough":
             if hasattr(mod, "thorough"):
